@@ -70,6 +70,10 @@ CHECKS = {
          "Decides the soundness conditions of both optimisations: a switched choice produces exactly the verdicts, consumed prefixes, tokens and successful attempts of the ordered choice for every hop through which the skip-first-test flag travels (terminals and opaque children with declared FIRST sets), choices with nullable alternatives stay ordered, FIRST sets are never too small, labels agree between the dry and the real pass, inlined uses equal calls and never reach a nil entry. Necessary conditions which, with C01, are sufficient for well-formed grammars; no two parsers are run.",
          "DESIGN.md §4 C02",
          "Assumptions of C01; opaque children with a declared FIRST set fail outside it; set arithmetic is modelled mathematically (setmodel.go), not taken from package set."),
+ "C15": ("abstract interpretation of the generator's front half and diagnostics (builder API, first pass, link, reachability count, left-recursion walk, emission loop) on model grammars with opaque sub-expressions, compared with a PEG oracle for undefined/unused/left-recursive rules; path-fact rule on Compile's SSA for -strict",
+         "Decides that the warnings the generator's source produces on a catalogue covering every operator on the left edge, nullable prefixes, indirect/unreachable cycles, stubs, unused chains and duplicate definitions are exactly the oracle's sets, that duplicates are diagnosed rather than crashing, and that Strict turns any warning into a returned error before anything is written. Exactness beyond the catalogue follows from the walkers being structural (one case per operator).",
+         "DESIGN.md §4 C15",
+         "Trusts the interpreter and the oracle in c15.go; the CLI half is C18; builder calls as in peg.peg (C10)."),
 }
 
 NOT_APPLICABLE = {
